@@ -160,7 +160,7 @@ def const(e):
 def macro_body(repo):
     """compile_row_regexp, or the same-module helper its macro body was extracted into"""
     m = repo.module(SYNTAX)
-    entry = repo.func(SYNTAX, "compile_row_regexp")
+    entry = repo.func(SYNTAX, "compile_row_regexp", canon=False)
 
     def n_subs(f):
         return sum(1 for x in calls_in(f) if call_name(x) == "re.sub")
@@ -176,7 +176,9 @@ def macro_body(repo):
                 if r2 and isinstance(r2[2], ast.FunctionDef) and r2[0] is m:
                     cands.append(r2[2])
     cands = [f for f in cands if n_subs(f) >= 5]
-    return cands[0] if cands else entry
+    chosen = cands[0] if cands else entry
+    # the function that holds the macro substitutions, in canonical form of its own (module-level pattern constants substituted, no outer memo wrapped around it)
+    return repo.canon(m, chosen) if getattr(chosen, "_canon_of", None) is None and getattr(chosen, "_named_of", None) is None else repo.canon(m, getattr(chosen, "_named_of", chosen))
 
 
 # ------------------------------------------------------------------ R1
@@ -187,26 +189,18 @@ def r1(c):
                      "(?i) removed and turned into IGNORECASE; user parentheses non-capturing when `*` is present; <name> -> named \\w+ group; the suffix applies exactly "
                      "when the row ends with neither `~` nor `...` and has no `~/`")
     m = repo.module(SYNTAX)
+    # the macro body may have been extracted into a helper of the same module (macro_body follows resolved calls, depth <= 2); analyse that function on its own
     entry = repo.func(SYNTAX, "compile_row_regexp")
-    fn = entry
-    # the macro body may have been extracted into a helper of the same module: follow resolved calls (depth <= 2)
-    def n_subs(f):
-        return sum(1 for x in calls_in(f) if call_name(x) == "re.sub")
-    if n_subs(fn) < 5:
-        cands = []
-        for x in calls_in(entry):
-            r = repo.resolve_call(m, x)
-            if r and isinstance(r[2], ast.FunctionDef) and r[0] is m:
-                cands.append(r[2])
-                for y in calls_in(r[2]):
-                    r2 = repo.resolve_call(m, y)
-                    if r2 and isinstance(r2[2], ast.FunctionDef) and r2[0] is m:
-                        cands.append(r2[2])
-        cands = [f for f in cands if n_subs(f) >= 5]
-        if cands:
-            fn = cands[0]
+    raw = macro_body(repo)
+    fn = repo.canon(m, raw) if getattr(raw, "_canon_of", None) is None else raw
     c.count("functions")
     gm = GuardMap(fn)
+    # the working variable: the local the re.sub results are assigned to (the row text being rewritten)
+    wv = {}
+    for n_ in walk_no_nested(fn):
+        if isinstance(n_, ast.Assign) and isinstance(n_.targets[0], ast.Name) and isinstance(n_.value, ast.Call) and call_name(n_.value) == "re.sub":
+            wv[n_.targets[0].id] = wv.get(n_.targets[0].id, 0) + 1
+    W = max(wv, key=wv.get) if wv else "row"
     subs = []
     for call in calls_in(fn):
         if call_name(call) == "re.sub" and len(call.args) >= 3:
@@ -246,7 +240,7 @@ def r1(c):
             found["paren"] = call
             ok = t in ("(?:\x011",)
             f = gm.formula(call, G.GuardEnv(rename=lambda s: s.replace('"', "'")))
-            ok = ok and G.implies(f, G.Atom("'*' in row"))
+            ok = ok and G.implies(f, G.Atom(f"'*' in {W}"))
             c.check("C07.R1", ok, at, "compile_row_regexp/parens", f"user parentheses macro {p!r} -> {r!r} under {G.show(f)}; expected '(' -> '(?:' only when the row has a `*`", key_text="paren")
         elif "<" in L and ">" in L:
             found["named"] = call
@@ -270,22 +264,22 @@ def r1(c):
 
     def ren(s):
         s = s.replace('"', "'")
-        return {"row.endswith('~')": "ends_tilde", "row.endswith('...')": "ends_dots", "'~/' in row": "has_tilde_re"}.get(s, s)
+        return {f"{W}.endswith('~')": "ends_tilde", f"{W}.endswith('...')": "ends_dots", f"'~/' in {W}": "has_tilde_re"}.get(s, s)
     env = G.GuardEnv(rename=ren)
     # trailing ~
     tail = suffix = dots = None
     for n in walk_no_nested(fn):
-        if isinstance(n, ast.Assign) and isinstance(n.targets[0], ast.Name) and n.targets[0].id == "row" and isinstance(n.value, ast.BinOp) \
+        if isinstance(n, ast.Assign) and isinstance(n.targets[0], ast.Name) and n.targets[0].id == W and isinstance(n.value, ast.BinOp) \
                 and isinstance(n.value.left, ast.Subscript) and const(n.value.right) is not None:
             tail = n
-        elif isinstance(n, ast.AugAssign) and isinstance(n.target, ast.Name) and n.target.id == "row" and const(n.value) is not None:
+        elif isinstance(n, ast.AugAssign) and isinstance(n.target, ast.Name) and n.target.id == W and const(n.value) is not None:
             suffix = n
-        elif isinstance(n, ast.Assign) and isinstance(n.targets[0], ast.Name) and n.targets[0].id == "row" and isinstance(n.value, ast.Subscript) and norm(n.value) == "row[:-3]":
+        elif isinstance(n, ast.Assign) and isinstance(n.targets[0], ast.Name) and n.targets[0].id == W and isinstance(n.value, ast.Subscript) and norm(n.value) == f"{W}[:-3]":
             dots = n
     if tail is None or suffix is None or dots is None:
         raise AnchorError("compile_row_regexp: trailing-~ / ... / suffix statements not located")
     body = strip_group(flat(const(tail.value.right)))
-    ok = body is not None and is_any_plus(body) and norm(tail.value.left) == "row[:-1]" and G.equivalent(gm.formula(tail, env), G.Atom("ends_tilde"))
+    ok = body is not None and is_any_plus(body) and norm(tail.value.left) == f"{W}[:-1]" and G.equivalent(gm.formula(tail, env), G.Atom("ends_tilde"))
     c.check("C07.R1", ok, repo.loc(m, tail), "compile_row_regexp/trailing~", f"trailing `~` becomes {const(tail.value.right)!r} under {G.show(gm.formula(tail, env))}; expected a capturing group of one-or-more of anything",
             key_text="tilde")
     c.check("C07.R1", G.equivalent(gm.formula(dots, env), G.And(G.Not(G.Atom("ends_tilde")), G.Atom("ends_dots"))), repo.loc(m, dots), "compile_row_regexp/...",
@@ -309,7 +303,7 @@ def r1(c):
     # (?i)
     ic = [n for n in walk_no_nested(fn) if isinstance(n, ast.AugAssign) and isinstance(n.op, ast.BitOr) and "IGNORECASE" in norm(n.value)]
     rp = [x for x in calls_in(fn) if isinstance(x.func, ast.Attribute) and x.func.attr == "replace" and x.args and const(x.args[0]) == "(?i)" and const(x.args[1]) == ""]
-    ok = bool(ic) and bool(rp) and G.equivalent(gm.formula(ic[0], G.GuardEnv(rename=lambda s: s.replace('"', "'"))), G.Atom("'(?i)' in row"))
+    ok = bool(ic) and bool(rp) and G.equivalent(gm.formula(ic[0], G.GuardEnv(rename=lambda s: s.replace('"', "'"))), G.Atom(f"'(?i)' in {W}"))
     c.check("C07.R1", ok, repo.loc(m, ic[0] if ic else fn), "compile_row_regexp/(?i)", "(?i) is not removed from the text and turned into re.IGNORECASE", key_text="flag-i")
     comp = [x for x in calls_in(fn) if call_name(x) == "re.compile"]
     ok = bool(comp) and any(isinstance(k.value, ast.Name) and k.value.id == "flags" for k in comp[0].keywords) or (comp and len(comp[0].args) > 1 and norm(comp[0].args[1]) == "flags")
